@@ -60,6 +60,7 @@ package profile
 //@     invariant [C01] len(negatedBody) == len(r.Body) && allHold(take(negatedBody, #i)) == !anyHold(take(r.Body, #i)) && allOk(take(negatedBody, #i))
 
 //@ func (r ConditionalRule) Negate() Rule
+//@   requires [C01:operand] okOperand(box(profile.ConditionalRule, r))
 //@   verify [C01]
 
 //@ func (r ConditionalRule) IfRule() Rule
